@@ -932,6 +932,13 @@ class Interp:
         return None
 
     def ev_JoinedStr(self, n):
+        # f"1 {units}" is '1 ' + units: one unit of the user's concentration spelling
+        if len(n.values) == 2 and isinstance(n.values[0], ast.Constant) and n.values[0].value == '1 ' and \
+                isinstance(n.values[1], ast.FormattedValue) and n.values[1].format_spec is None and n.values[1].conversion == -1:
+            b = self.ev(n.values[1].value)
+            if isinstance(b, UserStr) and self.as_tstr(b) is None:
+                self.memo.setdefault(('role', b.name), 'concentration')
+                return UserC1(b.name)
         toks = []
         formatted = []
         for v in n.values:
